@@ -668,7 +668,7 @@ pub fn explore(thorough: bool, result_path: &str) {
     });
     let res = rep.to_result(
         "C01",
-        "every string of the stated alphabets up to the stated length in every listed parser context, every single deviation of every corpus seed, every p^n scaling family, and 17 flat families (one unit repeated 3*10^4 .. 3*10^5 times at nesting depth 1) each in a child process of its own, where an abort of the process is observed as such; non-trivial = the run produced at least one diagnostic or more than 3000 bytes of output; distinct = distinct index in the enumeration",
+        "every string of the stated alphabets up to the stated length in every listed parser context, every single deviation of every corpus seed, every p^n scaling family, and 17 flat families (one unit repeated 3*10^4 .. 3*10^5 times at nesting depth 1) and 17 valid nestings (object / array spreads, fields, calls, indices, conditionals, elements, blocks at depth 20 and 64) each in a child process of its own, where an abort of the process is observed as such; non-trivial = the run produced at least one diagnostic or more than 3000 bytes of output; distinct = distinct index in the enumeration",
         bound,
         true,
         &["rustc catch_unwind observes every panic; aborts are observed by ./check as a dead engine and re-run singly",
@@ -704,6 +704,32 @@ pub const FLAT_KINDS: &[(&str, &str, &str, &str, bool)] = &[
     ("css:value-token-run", ".a{k:", "1px ", "}", true),
 ];
 
+/// nestings whose innermost operand is valid, so that the code generator runs on them: (name, prefix, opener, innermost, closer, suffix)
+pub const NEST_VALID: &[(&str, &str, &str, &str, &str, &str)] = &[
+    ("nest:object-spread", "<a b=\"{{ ", "{...", "a", "}", " }}\"/>"),
+    ("nest:object-field+spread", "<a b=\"{{ ", "{b:1,...", "a", "}", " }}\"/>"),
+    ("nest:array-spread-of-object-spread", "<a b=\"{{ ", "[...[{...", "x", "}]]", " }}\"/>"),
+    ("nest:array-spread", "<a b=\"{{ ", "[1,...", "x", ",2]", " }}\"/>"),
+    ("nest:object-field", "<a b=\"{{ ", "{a:", "x", "}", " }}\"/>"),
+    ("nest:parentheses", "<a b=\"{{ ", "(", "a", ")", " }}\"/>"),
+    ("nest:call-argument", "<a b=\"{{ ", "f(", "a", ")", " }}\"/>"),
+    ("nest:dynamic-index", "<a b=\"{{ ", "a[", "b", "]", " }}\"/>"),
+    ("nest:conditional-in-true-branch", "<a b=\"{{ ", "c?", "a", ":b", " }}\"/>"),
+    ("nest:conditional-in-condition", "<a b=\"{{ ", "(", "c", "?a:b)", " }}\"/>"),
+    ("nest:nullish-left", "<a b=\"{{ ", "(", "a", "??b)", " }}\"/>"),
+    ("nest:template-data-spread", "<template is=\"t\" data=\"{{ ...", "{...", "a", "}", " }}\"/>"),
+    ("nest:model-object-spread", "<a model:b=\"{{ ", "{...", "a", "}", ".x }}\"/>"),
+    ("nest:for-list-spread", "<a wx:for=\"{{ ", "[...", "l", "]", " }}\">{{item}}</a>"),
+    ("nest:element+binding", "", "<a b=\"{{x}}\">", "{{y}}", "</a>", ""),
+    ("nest:if-blocks+binding", "", "<block wx:if=\"{{x}}\">", "{{y}}", "</block>", ""),
+    ("nest:for-blocks+binding", "", "<block wx:for=\"{{x}}\">", "{{item}}", "</block>", ""),
+];
+
+pub fn nest_case(kind: usize, depth: usize) -> Case {
+    let (_, pre, o, inner, c, suf) = NEST_VALID[kind];
+    Case::Tmpl { path: "p".to_string(), src: format!("{}{}{}{}{}", pre, o.repeat(depth), inner, c.repeat(depth), suf) }
+}
+
 pub fn flat_case(kind: usize, n: usize) -> Case {
     let (_, pre, unit, suf, css) = FLAT_KINDS[kind];
     let src = format!("{}{}{}", pre, unit.repeat(n), suf);
@@ -718,7 +744,13 @@ pub fn flat_case(kind: usize, n: usize) -> Case {
 pub fn child(file: &str) {
     silence_panics();
     let v: Value = serde_json::from_slice(&std::fs::read(file).expect("read case")).expect("json");
-    let case = if v["flat_kind"].is_u64() { flat_case(v["flat_kind"].as_u64().unwrap() as usize, v["n"].as_u64().unwrap() as usize) } else { Case::from_json(&v["case"]).expect("case") };
+    let case = if v["flat_kind"].is_u64() {
+        flat_case(v["flat_kind"].as_u64().unwrap() as usize, v["n"].as_u64().unwrap() as usize)
+    } else if v["nest_kind"].is_u64() {
+        nest_case(v["nest_kind"].as_u64().unwrap() as usize, v["n"].as_u64().unwrap() as usize)
+    } else {
+        Case::from_json(&v["case"]).expect("case")
+    };
     let o = run_case(&case);
     println!("{}", json!({"failure": o.failure.map(|f| json!([f.0, f.1.chars().take(300).collect::<String>()])), "fuel": o.fuel, "output_bytes": o.out_len, "diagnostics": o.diag_count}));
 }
@@ -789,6 +821,47 @@ fn explore_flat(thorough: bool, rep: &mut Report) {
             .collect();
         hs.into_iter().flat_map(|h| h.join().unwrap()).collect()
     });
+    // valid nestings: depth 20 first (a doubling per level shows in the output budget there), then the full depth 64
+    let nest_results: Vec<(usize, usize, Result<(Option<(String, String)>, Value), String>)> = std::thread::scope(|sc| {
+        let hs: Vec<_> = (0..NEST_VALID.len())
+            .map(|k| {
+                sc.spawn(move || {
+                    let mut out = vec![];
+                    for n in [20usize, 64] {
+                        let r = run_in_child(&json!({"nest_kind": k, "n": n}), &format!("nest-{}-{}", k, n));
+                        let stop = matches!(&r, Ok((Some(_), _)) | Err(_));
+                        out.push((k, n, r));
+                        if stop {
+                            break;
+                        }
+                    }
+                    out
+                })
+            })
+            .collect();
+        hs.into_iter().flat_map(|h| h.join().unwrap()).collect()
+    });
+    for (k, n, r) in nest_results {
+        rep.states += 1;
+        rep.transitions += 1;
+        rep.evaluations += 1;
+        rep.count("space:valid-nestings-in-child-processes", 1);
+        match r {
+            Err(m) => rep.engine_error("C01", m),
+            Ok((None, v)) => {
+                rep.outcome(&("nest", k, v["diagnostics"].as_u64().unwrap_or(0).min(3), v["output_bytes"].as_u64().unwrap_or(0) / 4096));
+                rep.nontrivial_case(&("nest", k, n));
+            }
+            Ok((Some((class, detail)), _)) => {
+                rep.outcome(&("nest-failure", k, class.clone()));
+                rep.violation(Violation {
+                    fingerprint: format!("{}|{}", class, NEST_VALID[k].0),
+                    what: format!("{} on the nesting {:?} + {:?} x {} + {:?} + {:?} x {} + {:?}: {}", class, NEST_VALID[k].1, NEST_VALID[k].2, n, NEST_VALID[k].3, NEST_VALID[k].4, n, NEST_VALID[k].5, detail),
+                    replay: json!({"engine": "c01", "nest_kind": k, "n": n, "class": class}),
+                });
+            }
+        }
+    }
     for (k, n, r) in results {
         rep.states += 1;
         rep.transitions += 1;
@@ -814,8 +887,8 @@ fn explore_flat(thorough: bool, rep: &mut Report) {
 
 pub fn replay(v: &Value) -> Value {
     silence_panics();
-    if v["flat_kind"].is_u64() {
-        let spec = json!({"flat_kind": v["flat_kind"], "n": v["n"]});
+    if v["flat_kind"].is_u64() || v["nest_kind"].is_u64() {
+        let spec = if v["flat_kind"].is_u64() { json!({"flat_kind": v["flat_kind"], "n": v["n"]}) } else { json!({"nest_kind": v["nest_kind"], "n": v["n"]}) };
         let a = run_in_child(&spec, "replay-a");
         let b = run_in_child(&spec, "replay-b");
         let cls = |r: &Result<(Option<(String, String)>, Value), String>| match r {
